@@ -1,5 +1,5 @@
 From Coq Require Import List Bool.
-From LTV.C18 Require Import Model Proofs ProofsA ProofsB ProofsC ProofsD.
+From LTV.C18 Require Import Model Proofs ProofsA ProofsB ProofsC ProofsD ProofsE.
 Import ListNotations.
 
 (* All theorems below: for ALL main-thread programs p0 and disk-thread programs p1 (hypotheses: each chunk id is
@@ -78,12 +78,44 @@ Theorem wakeup_progress : forall s c rest,
 Proof. exact ProofsD.wakeup_progress. Qed.
 Print Assumptions wakeup_progress.
 
-(* DEADLOCK FREEDOM - PARTIAL. Proved: the state facts above (no_lost_wakeup + wakeup_progress), i.e. the
-   wake-up is never lost. MISSING: the liveness statement "remove terminates under disk-thread fairness":
-   it needs (a) a fairness/looping assumption for the disk thread (the model's disk program is a FINITE list
-   of process_callbacks calls, so a disk thread that has run out of them while a perform() callback is
-   still queued is a deadlock of the model, not of the code), and (b) a variant (position of the chunk in
-   the check queue) for the perform() loop. The finite instance below explores every interleaving of one
+(* MAPPING REFERENCES: [refs s] = one blocking ChunkList reference per pending node (the owner releases it inside the
+   notification). When remove(t) returns every remaining node is of another torrent and still holds its reference;
+   a notified piece holds none (so, with one_notification, each reference is released exactly once). The harness
+   compares ChunkListNode::blocking summed over the chunk list with the model's count at the end of every case. *)
+Theorem remove_returns_released : forall p0 p1 s s2 t l, distinct_pushes p0 p1 -> disk_only p1 -> reachable (init p0 p1) s ->
+  rem_view (td0 s) = Some (t, l) -> step s 0 = Some s2 ->
+  (forall l', rem_view (td0 s2) <> Some (t, l')) ->
+  forall c x, In (c, x) (hq s2) -> In c (refs s2) /\ x <> t.
+Proof. exact ProofsC.remove_returns_released. Qed.
+Print Assumptions remove_returns_released.
+Theorem refs_released_with_notification : forall p0 p1 s c, distinct_pushes p0 p1 -> reachable (init p0 p1) s ->
+  1 <= cnt c (nchunks (notes s)) -> cnt c (refs s) = 0.
+Proof. exact ProofsC.refs_released_with_notification. Qed.
+Print Assumptions refs_released_with_notification.
+
+(* NO LOST WAKE-UP AS LIVENESS, disk thread = its event loop (program [Loop]: process_callbacks forever), ALL main
+   programs and ALL schedules: whenever the main thread sits in HashQueue::remove's wait with the flag clear (it is
+   then not enabled, so only the disk thread can move), at most 4 steps of the disk thread - finishing pc_store /
+   pc_lock, popping the next piece in perform(), chunk_done - set the flag, which enables the main thread. So under
+   fairness of the disk thread the wait always ends. [disk_shape_invariant] is the invariant used: the disk
+   thread's stack has one of six shapes, m_done_chunks_lock is held exactly in the two shapes inside chunk_done,
+   and then the flag is set. *)
+Theorem disk_shape_invariant : forall p0 s, reachable (init p0 [Loop]) s -> linv s.
+Proof. exact ProofsE.reachable_linv. Qed.
+Print Assumptions disk_shape_invariant.
+Theorem wakeup_within_4_disk_steps : forall p0 s c t l rest,
+  distinct_pushes p0 [Loop] -> reachable (init p0 [Loop]) s ->
+  td0 s = IRemWait c t l :: rest -> flag s = false ->
+  exists n, n <= 4 /\ flag (run s (repeat 1 n)) = true.
+Proof. exact ProofsE.wakeup_within_4. Qed.
+Print Assumptions wakeup_within_4_disk_steps.
+
+(* TERMINATION OF remove - PARTIAL. Proved: every round of remove's wait ends within 4 disk steps
+   (wakeup_within_4_disk_steps), the awaited piece is never skipped (no_lost_wakeup) and every publish moves one
+   piece from the check queue to the done map. MISSING: the assembled statement "remove(t) returns after finitely
+   many steps under a fair schedule" (a lexicographic variant: pieces of t still in the check queue / hands, then
+   the phase of the wait loop); the main thread may spin through IRemDone/IRemWait while the flag stays set by
+   earlier publishes (busy wait in the real code as well). The finite instance below explores every interleaving of one
    small program inside Coq (bound 40 steps in the statement) and finds every maximal run finished. *)
 Theorem hashing_handoff_instance_partial : explore 40 prog_a = true.
 Proof. exact Proofs.instance_a. Qed.
